@@ -806,6 +806,19 @@ class Interp:
                                    or "Exception" in self.P.all_bases(ci) or "Error" in callee.short):
                 code = kwargs.get("code", args[0] if args else None)
                 return ExcVal(callee.short, code, kwargs)
+            if ci is not None and any(str(b_).split(".")[-1] in ("Enum", "IntEnum", "StrEnum") for b_ in self.P.all_bases(ci)) and len(args) == 1 and not kwargs:
+                # Enum lookup by value: members are represented by their values
+                fake = FuncInfo(f"{ci.qualname}.<class>", ci.module, ast.parse("def _m(): pass").body[0])
+                members = []
+                for st_ in ci.node.body:
+                    if isinstance(st_, ast.Assign) and len(st_.targets) == 1 and isinstance(st_.targets[0], ast.Name):
+                        try:
+                            members.append(self.eval(st_.value, {}, fake))
+                        except Unmodelled:
+                            pass
+                if any(type(m_) is type(args[0]) and m_ == args[0] for m_ in members):
+                    return args[0]
+                raise Raised(ExcVal("ValueError", None, {"message": f"{args[0]!r} is not a valid {callee.short}"}, getattr(e, "lineno", 0)))
             raise Unmodelled(f"construction of {callee.short} not modelled")
         if callable(callee):
             return callee(*args, **kwargs)
